@@ -114,11 +114,11 @@ PROPS['C06'] = dict(
 )
 PROPS['C10'] = dict(
     title='include',
-    units=['arms', 'depth', 'wrap', 'rtmu', 'glue'],
+    units=['arms', 'depth', 'wrap', 'rtmu', 'glue', 'prologue'],
     shims=['A-glue', 'A-path/fs', 'A-hashmap'],
     design='DESIGN.md 3/C10',
     technique='contract-based deductive verification (Verus) of the verbatim IncludeCompilerDirective arm incl. the include-path search loop; nested preprocessing as an uninterpreted function of named parameters',
-    level_text='Deductive proof for any number and order of include paths that the file used is the given path when absolute or existing, else the first include path that contains it, else the given path; that the nested run receives the live define table, ignore_include=false, include_depth+1, that its table is adopted and its text/origins merged, that errors are wrapped once in Include, that a same-line item yields IncludeLine, and that the arm fires iff !ignore_include.',
+    level_text='Deductive proof for any number and order of include paths that the file used is the given path when absolute or existing, else the first include path that contains it, else the given path; that the nested run receives the live define table, ignore_include=false, include_depth+1, that its table is adopted and its text/origins merged, that errors are wrapped once in Include, that a same-line item yields IncludeLine, that the arm fires iff !ignore_include, and that the table handed to a (nested) run reaches its working table with every entry intact (prologue clause caller-entries-win).',
     level_note=ARMS_NOTE + ' The ghost file system is constant during a call. Partial: file-name extraction is string trimming over uninterpreted functions.',
     not_covered=['file-name extraction semantics of trim_matches etc.', 'composition of the same-line arms over the event sequence (each arm is proved; unit glue proves the loop establishes their preconditions, not a whole-run statement)', 'ignore_include: that a literal directive contributes no tokens'],
 )
